@@ -5,4 +5,5 @@ open CJ.Drv
 
 def main : IO Unit := runDriver fun
   | "covert" :: args => Covert.handle args
+  | "csched" :: args => Covert.handleSched args
   | _ => none
